@@ -7,27 +7,33 @@
 (***************************************************************************)
 EXTENDS DocGen, TextView
 
-VARIABLES picked, tight
-mvars == <<doc, picked, tight>>
+CONSTANT AllFlagAssignments     \* TRUE: every assignment of content flags to the text / media elements; FALSE: all kept
+
+VARIABLES picked, tight, flags
+mvars == <<doc, picked, tight, flags>>
 
 Elems == Run(doc, TRUE).elems
 DF == INSTANCE DocFilters
-AsDF(es) ==
+AsDF(es, f) ==
     [i \in 1..Len(es) |->
         IF es[i].t = "tag" THEN [k |-> "tag", c |-> FALSE, name |-> es[i].k, start |-> es[i].start]
-        ELSE IF es[i].t = "text" THEN [k |-> "text", c |-> TRUE]
-        ELSE IF es[i].t = "table" THEN [k |-> "table", c |-> TRUE]
-        ELSE [k |-> "image", c |-> TRUE]]
-Flags == LET r == DF!Nested(AsDF(Elems)) IN [i \in 1..Len(Elems) |-> r[i].c]
+        ELSE IF es[i].t = "text" THEN [k |-> "text", c |-> f[i]]
+        ELSE IF es[i].t = "table" THEN [k |-> "table", c |-> f[i]]
+        ELSE [k |-> "image", c |-> f[i]]]
+FinalFlags(es, f) == LET r == DF!Nested(AsDF(es, f)) IN [i \in 1..Len(es) |-> r[i].c]
+Flags == flags
 
 WordNodes == {n \in 1..Len(doc) : WordNode(doc, n)}
 Loose == [l |-> FALSE, r |-> FALSE]
 
-MInit == Init /\ picked = FALSE /\ tight = << >>
-MGrow == ~picked /\ Next /\ UNCHANGED <<picked, tight>>
+MInit == Init /\ picked = FALSE /\ tight = << >> /\ flags = << >>
+MGrow == ~picked /\ Next /\ UNCHANGED <<picked, tight, flags>>
 MPick == /\ ~picked /\ Len(doc) >= 1
          /\ \E f \in [WordNodes -> [l : BOOLEAN, r : BOOLEAN]] :
                tight' = [n \in 1..Len(doc) |-> IF n \in WordNodes THEN f[n] ELSE Loose]
+         /\ \E c \in [1..Len(Elems) -> BOOLEAN] :
+               /\ \A i \in 1..Len(Elems) : IF Elems[i].t = "tag" THEN ~c[i] ELSE (AllFlagAssignments \/ c[i])
+               /\ flags' = FinalFlags(Elems, c)
          /\ picked' = TRUE /\ UNCHANGED doc
 MNext == MGrow \/ MPick
 MSpec == MInit /\ [][MNext]_mvars
